@@ -539,6 +539,7 @@ Inductive cell :=
 | CStr (s : list N)
 | CBytes (b : list N)
 | CTs (ns : Z)                 (* nanoseconds since 1970-01-01 *)
+| CTz (ns : Z) (off : Z)       (* time-zone-aware instant: nanoseconds since 1970-01-01T00:00Z, UTC offset in seconds *)
 | CDate (days : Z)
 | CDec (unscaled exp : Z)      (* normalised: unscaled not divisible by 10, or 0 with exp 0 *)
 | CList (l : list cell)
@@ -565,6 +566,7 @@ Fixpoint cell_agree (e o : cell) : bool :=
   | CStr a, CStr b => listN_eqb a b
   | CBytes a, CBytes b => listN_eqb a b
   | CTs a, CTs b => (a =? b)%Z
+  | CTz a x, CTz b y => ((a =? b) && (x =? y))%Z
   | CDate a, CDate b => (a =? b)%Z
   | CDec a x, CDec b y => ((a =? b) && (x =? y))%Z
   | CList l1, CList l2 =>
